@@ -4,13 +4,15 @@
 //   mode 3 aspif -> SmodelsConvert -> SmodelsOutput (opts&1: potassco)     4 aspif -> AspifTextOutput
 //   mode 5 smodels -> AspifOutput (opts&1: potassco, opts&2: filter)        6 smodels -> AspifTextOutput
 //   mode 7 the real lpconvert binary ($VERIF_LPCONVERT) with -p (1) -f (2) -t (4), input on stdin
-// Observation: status (0 accepted, 1 error reported, 2 std::exception escaped, 3 other exception), handler invocations, error line,
+// Observation: status (0 accepted, 1 error reported, 2 std::exception escaped, 3 other exception, 4 modes 3-6: a re-used writer object did not behave like a fresh one), handler invocations, error line,
 //              leak flag, then the recorded calls (modes 0-2) or the length and the bytes of the output stream (modes 3-7).
 //              Mode 7: status = exit status of the binary (0, 1; 2000 = sanitizer report about an allocation size announced by the input),
 //              handler invocations = number of "*** ERROR: In line <n>" reports on stderr, error line = <n>, output = its stdout.
 #include "common.h"
 #include "rec.h"
 #include "reuse.h" // modes 0-2: every other case (hash of the case) reads with a reader OBJECT that has read - or refused - a primer text before (chosen by the hash)
+//                    modes 3-6: the same cases ("primed", hash bit 17) are written by a WRITER OBJECT (SmodelsOutput / AspifTextOutput / AspifOutput) that has been
+//                    given a primer program before - see "Writer REUSE" below
 #include <potassco/aspif.h>
 #include <potassco/aspif_text.h>
 #include <potassco/smodels.h>
@@ -63,6 +65,93 @@ static int runLpconvert(const std::string& in, ll opts, std::string& out, int& n
 	unlink(tmpl); unlink((std::string(tmpl) + ".err").c_str()); unlink((std::string(tmpl) + ".out").c_str());
 	return code;
 }
+// Writer REUSE (modes 3-6, added for seeded change C04-r15). AbstractProgram::initProgram "starts a new program": one output object may be
+// handed several programs in a row - by a caller whose ErrorHandler returns instead of exiting also after an input that was REFUSED in the
+// middle of a step, so that endStep() never ran - and must write each like a fresh writer would ("uses bytes it did not read from the input":
+// nothing of an earlier program may be written or indexed). For the primed cases (reuse::primed, the same bit as the reader reuse) the
+// harness first reads a PRIMER text of the input format INTO THE WRITER OBJECT that then converts the case, throws away what was written so
+// far (os.str("")) and runs the case exactly like the unprimed path. Hash bit 18: the primer and the case are read by ONE reader object
+// (accept twice) / by a fresh reader each (readAspif / readSmodels twice - the demo's shape). Hash bit 19 (aspif) / pick (smodels): the primer
+// comes from the tables below (programs that leave statements of every kind PENDING in the text writer: refused in the middle of a step
+// after facts / rules / #show with stored strings / every directive / theory data, cut off at the end of the input inside a step, refused
+// in a later step, refused by the writer itself) or from harness/reuse.h (accepted incremental ones, refused before anything was delivered..).
+// Mode 3 re-uses the SmodelsOutput only: SmodelsConvert keeps its atom mapping across initProgram by design, so the primer and the case
+// each get a converter of their own. A second, fresh run of the same case gives the reference: status / error reports / error line /
+// output bytes of the re-used writer must equal those of a fresh one, else the status is reported as 4 (the output shown is the re-used
+// writer's). For a correct writer every primer is invisible, so the model (coq/C04/Pipe.v over C06's writer, c06_second_program_like_fresh)
+// is unchanged. props/C04.py reads these tables from this file (one entry per line: {"tag", literal ...}; keep that shape).
+#define WR_X60 "XXXXXXXXXXXXXXXXXXXXXXXXXXXXXXXXXXXXXXXXXXXXXXXXXXXXXXXXXXXX"
+static const reuse::Primer ASPIF_WRITER_PRIMERS[] = {
+	{"refused-after-fact", "asp 1 0 0\n1 0 1 1 0 0\n1 0 1 2 0 1 0\n0\n"},
+	{"refused-after-show-of-stored-string", "asp 1 0 0\n4 60 " WR_X60 " 2 1 2\n1 0 1 2 0 1 0\n0\n"},
+	{"refused-after-every-directive", "asp 1 0 0\n1 0 1 1 0 1 -2\n1 1 2 2 3 1 2 2 1 1 -4 2\n2 1 2 1 3 -2 1\n3 1 1\n4 1 a 1 1\n4 3 b c 0\n4 5 \"s t\" 2 1 -2\n4 4 q(1) 1 -3\n5 2 2\n6 1 -1\n7 0 1 2 3 1 2\n8 0 1 1 1\n9 0 1 5\n9 1 2 1 x\n9 2 3 2 1 1\n9 4 0 1 3 1 1\n9 5 4 2 1 0\n99\n"},
+	{"cut-off-inside-step", "asp 1 0 0\n1 0 1 1 0 0\n4 3 X y 0\n2 0 1 1 1\n"},
+	{"refused-in-third-step", "asp 1 0 0 incremental\n1 0 1 1 0 0\n0\n1 0 1 2 0 0\n0\n4 2 Ab 2 1 2\n4 2 Cd 0\n3 2 1 2\n1 0 1 3 0 1 0\n0\n"},
+	{"refused-by-the-text-writer", "asp 1 0 0\n1 0 1 1 0 0\n4 2 Ab 1 -1\n9 4 0 0 0\n9 4 0 0 0\n0\n"},
+	{"refused-after-many-strings", "asp 1 0 0\n4 1 A 0\n4 1 B 0\n4 1 C 0\n4 1 D 2 1 2\n5 1 0\n1 0 1 0\n"},
+	{"accepted-then-extra-input", "asp 1 0 0\n1 0 1 1 0 0\n4 2 Ab 0\n0\nasp 1 0 0\n"},
+};
+static const reuse::Primer SMODELS_WRITER_PRIMERS[] = { // need no option
+	{"refused-after-rules", "1 2 0 0\n1 3 1 0 2\n3 2 4 5 0 0\n1 0 0 0\n"},
+	{"cut-off-inside-symbol-table", "1 2 0 0\n0\n2 Foo\n3 \"bar\"\n4 X y\n"},
+	{"cut-off-inside-rules", "1 2 0 0\n2 3 2 0 1 4 5\n5 6 2 2 1 4 5 1 1\n6 0 2 1 2 3 1 2\n"},
+};
+static int quietError(int, const char*) { return 1; } // the caller's handler survives the primer's error
+template <unsigned N> static const reuse::Primer& wrPick(const Case& c, const reuse::Primer (&t)[N]) { return t[reuse::pick(c, N)]; }
+static const reuse::Primer& aspifWriterPrimer(const Case& c) {
+	return ((reuse::hash(c) >> 19) & 1u) ? wrPick(c, ASPIF_WRITER_PRIMERS) : reuse::aspifPrimer(c);
+}
+static const reuse::Primer& smodelsWriterPrimer(const Case& c, bool claspExt) {
+	return ((reuse::hash(c) >> 19) & 1u) ? wrPick(c, SMODELS_WRITER_PRIMERS) : reuse::smodelsPrimer(c, claspExt);
+}
+struct PipeResult { int rc; int errs; int line; std::string out; };
+// one conversion of `in` (modes 3-6); primer != 0: into a writer object that was given the primer before
+static PipeResult runPipe(const Case& c, ll mode, ll opts, const std::string& in, const reuse::Primer* primer) {
+	g_errs = 0; g_line = 0;
+	std::ostringstream os;
+	std::istringstream is(in);
+	std::istringstream pr(std::string(primer ? primer->text : ""));
+	const bool oneReader = primer && ((reuse::hash(c) >> 18) & 1u) != 0;
+	int rc = 0;
+	Potassco::SmodelsInput::Options so;
+	if ((mode == 5 || mode == 6) && (opts & 1)) { so.enableClaspExt().convertEdges().convertHeuristic(); if (opts & 2) so.dropConverted(); }
+	#define WR_FORGET() do { os.str(std::string()); os.clear(); } while (0)
+	if (mode == 3) {
+		Potassco::SmodelsOutput w(os, (opts & 1) != 0, 0);
+		if (primer) { Potassco::SmodelsConvert cv0(w, (opts & 1) != 0); try { Potassco::readAspif(pr, cv0, &quietError); } catch (...) {} }
+		WR_FORGET();
+		Potassco::SmodelsConvert cv(w, (opts & 1) != 0);
+		rc = Potassco::readAspif(is, cv, &onError);
+	}
+	else if (mode == 4 || mode == 6) {
+		Potassco::AspifTextOutput t(os);
+		if (mode == 4) {
+			Potassco::AspifInput rd(t);
+			if (oneReader)   { reuse::prime(rd, pr); }
+			else if (primer) { try { Potassco::readAspif(pr, t, &quietError); } catch (...) {} }
+			WR_FORGET();
+			rc = oneReader ? Potassco::readProgram(is, rd, &onError) : Potassco::readAspif(is, t, &onError);
+		}
+		else {
+			Potassco::SmodelsInput rd(t, so);
+			if (oneReader)   { reuse::prime(rd, pr); }
+			else if (primer) { try { Potassco::readSmodels(pr, t, &quietError, so); } catch (...) {} }
+			WR_FORGET();
+			rc = oneReader ? Potassco::readProgram(is, rd, &onError) : Potassco::readSmodels(is, t, &onError, so);
+		}
+	}
+	else { // mode 5
+		Potassco::AspifOutput a(os);
+		Potassco::SmodelsInput rd(a, so);
+		if (oneReader)   { reuse::prime(rd, pr); }
+		else if (primer) { try { Potassco::readSmodels(pr, a, &quietError, so); } catch (...) {} }
+		WR_FORGET();
+		rc = oneReader ? Potassco::readProgram(is, rd, &onError) : Potassco::readSmodels(is, a, &onError, so);
+	}
+	#undef WR_FORGET
+	PipeResult r; r.rc = rc; r.errs = g_errs; r.line = g_line; r.out = os.str();
+	return r;
+}
 int main() {
 	Case c; Obs o;
 	{ std::istringstream warm("asp 1 0 0\n0\n"); Obs r0; Recorder r(r0); Potassco::readAspif(warm, r, &onError); }
@@ -79,7 +168,7 @@ int main() {
 			std::ostringstream os;
 			std::istringstream is(in);
 			Recorder r(rec);
-			int rc = 0;
+			int rc = 0; bool writerDiffers = false;
 			if (primed && mode >= 0 && mode <= 2) { // reader reuse: the primer's calls are dropped, then the case's text is read exactly like readAspif/readSmodels/readProgram do
 				std::istringstream pr(std::string(mode == 0 ? reuse::aspifPrimer(c).text : mode == 2 ? reuse::textPrimer(c).text : reuse::smodelsPrimer(c, (opts & 1) != 0).text));
 				if      (mode == 0) { Potassco::AspifInput rd(r);              reuse::prime(rd, pr); rec.s.clear(); rc = Potassco::readProgram(is, rd, &onError); }
@@ -89,15 +178,17 @@ int main() {
 			else if (mode == 0) { rc = Potassco::readAspif(is, r, &onError); }
 			else if (mode == 1) { rc = Potassco::readSmodels(is, r, &onError, smOpts(opts)); }
 			else if (mode == 2) { Potassco::AspifTextInput ti(&r); rc = Potassco::readProgram(is, ti, &onError); }
-			else if (mode == 3) { Potassco::SmodelsOutput w(os, (opts & 1) != 0, 0); Potassco::SmodelsConvert cv(w, (opts & 1) != 0); rc = Potassco::readAspif(is, cv, &onError); }
-			else if (mode == 4) { Potassco::AspifTextOutput t(os); rc = Potassco::readAspif(is, t, &onError); }
-			else if (mode == 5 || mode == 6) {
-				Potassco::SmodelsInput::Options so;
-				if (opts & 1) { so.enableClaspExt().convertEdges().convertHeuristic(); if (opts & 2) so.dropConverted(); }
-				if (mode == 5) { Potassco::AspifOutput a(os); rc = Potassco::readSmodels(is, a, &onError, so); }
-				else           { Potassco::AspifTextOutput t(os); rc = Potassco::readSmodels(is, t, &onError, so); }
+			else if (mode >= 3 && mode <= 6) {
+				const reuse::Primer* p = !primed ? 0 : (mode <= 4 ? &aspifWriterPrimer(c) : &smodelsWriterPrimer(c, (opts & 1) != 0));
+				PipeResult got = runPipe(c, mode, opts, in, p);
+				if (p) { // reference: the same text into a fresh writer
+					PipeResult ref = runPipe(c, mode, opts, in, 0);
+					writerDiffers = (ref.rc != 0) != (got.rc != 0) || ref.errs != got.errs || ref.line != got.line || ref.out != got.out;
+					g_errs = got.errs; g_line = got.line;
+				}
+				rc = got.rc; os << got.out;
 			}
-			status = (rc != 0 || g_errs != 0) ? 1 : 0;
+			status = writerDiffers ? 4 : (rc != 0 || g_errs != 0) ? 1 : 0;
 			outBytes.assign(os.str());
 			if (mode == 7) { status = runLpconvert(in, opts, outBytes, g_errs, g_line); }
 		}
